@@ -20,7 +20,7 @@ from .. import framework as fw
 from .. import families_c07 as C
 from ._engine import TRUSTED
 
-SIZES = dict(quick=100, thorough=1500)
+SIZES = dict(quick=80, thorough=900)
 
 
 def _report(ctx, f, source):
@@ -112,7 +112,10 @@ def run(ctx):
         cov["corpus_crash_runs"] = tot["corpus_crash_runs"]
         streams["corpus"] = dict(cases=n_corpus, histories_with_all_crash_points=len(later), crash_runs=tot["corpus_crash_runs"],
                                  witnesses=cov.get("witnesses", []))
-        pts = sorted(h[0] for h in hists)
+        pts = sorted(h["points"] for h in hists)
+        distinct = set()
+        for h in hists:
+            distinct.update(h["distinct"])
         streams["crash_points"] = dict(
             base_runs=tot["base_runs"], user_ops=tot["user_ops"],
             storage_crash_points=tot["storage_crash_points"], provider_crash_points=tot["provider_crash_points"],
@@ -142,14 +145,15 @@ def run(ctx):
             if reported <= 6:
                 _report(ctx, f, "seeded family c07")
         cov["evaluations"] = tot["base_runs"] + tot["crash_runs"] + cov.get("corpus_crash_runs", 0)
-        cov["distinct_nontrivial"] = tot["crash_runs"]
+        cov["distinct_nontrivial"] = len(distinct)
         cov["traces_validated_against_impl"] = tot["base_runs"] + tot["crash_runs"]
-        cov["samples"] = [dict(base_run=i, crash_points=h[0], user_ops=h[1]) for i, h in enumerate(hists[:4])]
+        cov["samples"] = [h["sample"] for h in hists if h["sample"]][:3]
     cov["rule"] = ("base run = seeded clean-domain history (60 % one-sided, 40 % disjoint two-sided; 30 % continue the history after the "
                    "recovery) on the real engine over SqliteStorage on a file; one crash run per storage write of the base run (death "
                    "before it) and per engine-issued provider write (death after it), between the start of the schedule and the final "
-                   "quiet state; every crash run is a distinct (history, crash instant) pair and is non-trivial (the process dies inside "
-                   "an engine step and a new engine recovers); evaluations = base runs + crash runs + corpus")
+                   "quiet state; three orders in which the restarted managers first run; evaluations = base runs + crash runs + corpus "
+                   "crash runs; a crash run is non-trivial when the restarted engine wrote to storage or to a provider during the recovery; "
+                   "distinct = distinct (flavour, base, schedule, set order, crash kind, crash index, restart order), counted by hashing")
     cov["streams"] = streams
     cov["oracles"] = ("Monitor acceptance of the trace with the crash (convergence, spec, covered versions, no '.conflicted', origin "
                       "untouched, no echo) + C11 index + C08 storage == memory during the recovery + CrashModel.na_row/na_obj on decoded rows "
